@@ -66,7 +66,23 @@ func (d *Decoder) ReadPointerFlag() (byte, error) {
 	if err != nil {
 		return 0, err
 	}
+	// an optional is prefixed by 0 (absent) or 1 (present); nothing else is a valid encoding
+	if firstByte > 1 {
+		return 0, fmt.Errorf("invalid optional discriminator: %d", firstByte)
+	}
 	return firstByte, nil
+}
+
+// ReadBool reads a boolean encoded as a single byte 0 or 1.
+func (d *Decoder) ReadBool() (bool, error) {
+	b, err := d.buf.ReadByte()
+	if err != nil {
+		return false, err
+	}
+	if b > 1 {
+		return false, fmt.Errorf("invalid boolean encoding: %d", b)
+	}
+	return b == 1, nil
 }
 
 func (d *Decoder) ReadLegnthFlag() (byte, error) {
